@@ -211,6 +211,7 @@ def run(ctx):
     ]
     ctx.trusted.append("vlib/x_C17.py: logical clock substituted for radicale.auth.time, scripted back-end, renaming of real digests to symbolic ones")
     ctx.prove()
+    ctx.log('proof side done')
 
     failures = []      # (case, rule, index, text)
 
@@ -220,6 +221,29 @@ def run(ctx):
             failures.append((case, bad, label))
         return bad
 
+    disagreeing = []
+    ident = lambda x: x  # noqa: E731
+    state = dict(n=0)
+    corr = {}
+
+    def correspond(tag, pairs):
+        """pairs: list of (case, res).  Runs the repaired model variant in Coq on every history."""
+        enc = [(X.enc_case(c), X.enc_expect(r)) for c, r in pairs]
+        state["n"] += 1
+        bad = ctx.diff_cases("c17_%s%d" % (tag, state["n"]), X.header(), "(crun_case Vfix)", enc, ident, ident, "cexpect_eqb",
+                             shard=ctx.n(250, 500))
+        if bad is None:
+            return
+        t = corr.setdefault(tag, [0, 0, ""])
+        t[0] += len(pairs)
+        t[1] += len(bad)
+        if bad and not t[2]:
+            t[2] = json.dumps(pairs[bad[0]][0])[:900]
+        for b_ in bad:
+            if len(disagreeing) < 400:
+                disagreeing.append(pairs[b_])
+        ctx.extra["disagreements"] = ctx.extra.get("disagreements", 0) + len(bad)
+
     # ------------------------------------------------------------ 2. witnesses first
     wit = []
     for label, case in WITNESSES:
@@ -228,15 +252,17 @@ def run(ctx):
         ctx.case(case_key(case), nontrivial=True, sample=dict(kind="witness", label=label, trace=X.describe(case, res)))
         ctx.count("kind:witness")
         handle(case, res, label)
+    correspond("witnesses", wit)
+    keep = list(wit)
 
-    # ------------------------------------------------------------ 3. generated histories
-    n_rand = ctx.n(1500, 60000)
-    n_mal = ctx.n(200, 6000)
-    gen = []
+    # ------------------------------------------------------------ 3. generated histories (in batches)
+    n_rand = ctx.n(4000, 150000)
+    n_mal = ctx.n(500, 15000)
+    batch = []
     for i in range(n_rand + n_mal):
         case = gen_case(ctx.rng, malformed=i >= n_rand)
         res = X.run_real(case)
-        gen.append((case, res))
+        batch.append((case, res))
         nt = nontrivial(case, res)
         ctx.case(case_key(case), nontrivial=nt,
                  sample=dict(kind="generated", trace=X.describe(case, res)[:12]) if i < 2 else None)
@@ -251,32 +277,37 @@ def run(ctx):
             ctx.count("kind:cache-disabled")
         if len(failures) < 40:
             handle(case, res, "generated-%d" % i)
+        if len(batch) >= 20000 or i == n_rand + n_mal - 1:
+            if len(keep) < 400:
+                keep += batch[:300]
+            correspond("histories", batch)
+            ctx.log("generated histories: %d run and compared" % (i + 1))
+            batch = []
 
     # ------------------------------------------------------------ exhaustive short histories
-    exh = []
+    batch = []
+    n_exh = 0
     for case in exhaustive_cases(ctx.n(4, 5), with_restore=not ctx.quick):
         res = X.run_real(case)
-        exh.append((case, res))
+        batch.append((case, res))
+        n_exh += 1
         ctx.case(case_key(case), nontrivial=nontrivial(case, res))
         if len(failures) < 40:
             handle(case, res, "exhaustive")
-    ctx.count("kind:exhaustive", len(exh))
+        if len(batch) >= 20000:
+            correspond("exhaustive", batch)
+            batch = []
+    if batch:
+        correspond("exhaustive", batch)
+    ctx.count("kind:exhaustive", n_exh)
+    ctx.log("exhaustive histories: %d run and compared; disagreeing so far: %d" % (n_exh, len(disagreeing)))
 
-    # ------------------------------------------------------------ correspondence with the model run in Coq
-    suites = [("witnesses", wit), ("histories", gen), ("exhaustive", exh)]
-    fn = "(crun_case Vfix)"
-    disagreeing = []
-    for tag, pairs in suites:
-        bad = ctx.diff_cases("c17_" + tag, X.HEADER, fn, [(c, r) for c, r in pairs], X.enc_case, X.enc_expect, "cexpect_eqb",
-                             shard=ctx.n(250, 500))
-        if bad is None:
-            continue
-        ctx.obligation("correspondence:%s" % tag, not bad,
-                       "" if not bad else "model (repaired variant) differs from the implementation on %d of %d histories, first: %s"
-                       % (len(bad), len(pairs), json.dumps(pairs[bad[0]][0])[:900]))
-        disagreeing += [pairs[b] for b in bad]
+    for tag, (n, nbad, first) in corr.items():
+        ctx.obligation("correspondence:%s" % tag, nbad == 0,
+                       "" if not nbad else "model (repaired variant) differs from the implementation on %d of %d histories, first: %s"
+                       % (nbad, n, first))
     if disagreeing:
-        classify(ctx, disagreeing, [p for _, ps in suites for p in ps])
+        classify(ctx, disagreeing, keep)
         # the disagreeing histories and their sub-histories go through the monitors as well (search step)
         for case, res in disagreeing[:200]:
             if len(failures) >= 40:
@@ -284,6 +315,7 @@ def run(ctx):
             if not any(f[0] is case for f in failures):
                 handle(case, res, "disagreeing")
 
+    ctx.log('correspondence done, disagreeing: %d' % len(disagreeing))
     # ------------------------------------------------------------ the age expression (float truncation) vs age_s
     age_suite(ctx)
 
@@ -306,12 +338,14 @@ def run(ctx):
 def classify(ctx, disagreeing, allpairs):
     """Which variant of the model (which of the three defects present) does the implementation correspond to?"""
     sample = disagreeing[:300] + allpairs[:300]
+    enc = [(X.enc_case(c), X.enc_expect(r)) for c, r in sample]
+    ident = lambda x: x  # noqa: E731
     matches = []
     for f1, f2, f3 in itertools.product([False, True], repeat=3):
         if f1 and f2 and f3:
             continue
         fn = "(crun_case %s)" % X.variant_term(f1, f2, f3)
-        bad = ctx.diff_cases("c17_var_%d%d%d" % (f1, f2, f3), X.HEADER, fn, sample, X.enc_case, X.enc_expect, "cexpect_eqb", shard=200)
+        bad = ctx.diff_cases("c17_var_%d%d%d" % (f1, f2, f3), X.header(), fn, enc, ident, ident, "cexpect_eqb", shard=200)
         if bad is not None and not bad:
             matches.append(dict(fix1=f1, fix2=f2, fix3=f3))
     ctx.extra["implementation_matches_model_variant"] = matches
@@ -347,7 +381,7 @@ def age_suite(ctx):
             if f(T0 + d, T0) != fns[0][1](T0 + d, T0):
                 ctx.obligation("correspondence:age:%s" % name, False, "age expressions of login() differ at d=%d" % d)
     bad = ctx.diff_cases("c17_age", X.HEADER, "(fun p => age_s (fst p) (snd p))", cases,
-                         lambda p: "(%s, %s)" % (enc_Z(p[0]), enc_Z(p[1])), enc_Z, "Z.eqb", shard=2000)
+                         lambda p: "(%s, %s)" % (X.enc_T(p[0]), X.enc_T(p[1])), enc_Z, "Z.eqb", shard=1000)
     ctx.count("cases:age", len(cases))
     if bad is not None:
         ctx.obligation("correspondence:age", not bad, "" if not bad else "age_s differs from %s at %r" % (fns[0][0], cases[bad[0]]))
